@@ -1,0 +1,16 @@
+//go:build verif
+
+// Package verifhook holds yield points used by the deterministic-simulation
+// harness. Without the "verif" build tag every hook is an empty function.
+package verifhook
+
+// Hook, when non-nil, is invoked at every yield point with the name of the site.
+// It must be set before any parsing starts and not changed afterwards.
+var Hook func(site string)
+
+// Yield hands control to the simulator (if one is installed).
+func Yield(site string) {
+	if h := Hook; h != nil {
+		h(site)
+	}
+}
